@@ -164,7 +164,8 @@ uint8_t hll_union_alloc<A>::get_lg_config_k() const {
 
 template<typename A>
 void hll_union_alloc<A>::reset() {
-  gadget_.reset();
+  // back to the state of a newly constructed union: gadget_.reset() alone would keep an lg_k that earlier inputs had reduced
+  gadget_ = hll_sketch_alloc<A>(lg_max_k_, target_hll_type::HLL_8, false, gadget_.sketch_impl->getAllocator());
 }
 
 template<typename A>
